@@ -189,6 +189,19 @@ class Builder:
         self.out(target, [f"{a}, {b} = {self.val(t1)}, {self.val(t2)}", f"mon.write({a})", f"mon.write({b})"])
         if t1 == t2:
             self.out(target, [f"{a}, {b} = {b}, {a}", f"mon.write({a})", f"mon.write({b})"])
+        if self.draw(st.booleans()):
+            # shift register: a later right-hand element reads an earlier target; its type is the type *before* the statement
+            p, c, n = self.name(), self.name(), self.name("n")
+            form = self.draw(st.sampled_from(["p, c = n, p", "c, p = p, n", "p, c = (n + 1), (p * 2)"]))
+            where = self.draw(st.sampled_from(["top", "helper"]))
+            stmt = form.replace("p", "\0").replace("c", c).replace("n", n).replace("\0", p)
+            if where == "top":
+                self.out(target, [f"{p} = {self.val('float')}", f"{n} = {self.val('int')}", stmt, f"mon.write({c})", f"mon.write({p})"])
+            else:
+                h = self.name("h")
+                self.pre += [f"def {h}({n}):", f"    {p} = {self.val('float')}", "    " + stmt, f"    return {c}"]
+                x = self.name()
+                self.out(target, [f"{x} = {h}({self.val('int')})", f"mon.write({x})"])
         return "tuple_assign"
 
     def s_cross_pass(self, target):
@@ -245,7 +258,14 @@ class Builder:
         t1, t2 = self.draw(st.sampled_from([("str", "float"), ("float", "str"), ("int", "float"), ("float", "int"), ("bool", "float")]))
         r = self.draw(st.sampled_from(["r", "res", "tmp"]))
         for h, t in ((h1, t1), (h2, t2)):
-            self.pre += [f"def {h}({a}):", f"    if {a} > 500:", f"        {r} = {self.val(t)}", "    else:", f"        {r} = {self.val(t)}", f"    return {r}"]
+            # the first assignment sits in if/else arms, in a for body or in a while body: each is hoisted by another code path
+            how = self.draw(st.sampled_from(["ifelse", "ifelse", "for", "while"]))
+            if how == "ifelse":
+                self.pre += [f"def {h}({a}):", f"    if {a} > 500:", f"        {r} = {self.val(t)}", "    else:", f"        {r} = {self.val(t)}", f"    return {r}"]
+            elif how == "for":
+                self.pre += [f"def {h}({a}):", "    for q in range(2):", f"        {r} = {self.val(t)}", f"    return {r}"]
+            else:
+                self.pre += [f"def {h}({a}):", "    wq = 2", "    while wq > 0:", "        wq = wq - 1", f"        {r} = {self.val(t)}", f"    return {r}"]
         x, y = self.name(), self.name()
         self.ana_reads += 2
         self.out(target, [f"{x} = {h1}(analog_read(\"A0\"))", f"mon.write({x})", f"{y} = {h2}(analog_read(\"A0\"))", f"mon.write({y})"])
@@ -258,7 +278,7 @@ class Builder:
         x = self.name()
         t = self.draw(st.sampled_from(["float", "float", "str", "bool", "int"]))
         lines = [f"{x} = {self.val(t)}"]
-        kind = self.draw(st.sampled_from(["comp", "comp_expr", "param", "local"]))
+        kind = self.draw(st.sampled_from(["comp", "comp_expr", "param", "local", "local_nested"]))
         if kind in ("comp", "comp_expr"):
             l = self.name("l")
             a = self.draw(st.integers(1, 4))
@@ -270,6 +290,18 @@ class Builder:
                 self.pre.append(lines.pop())  # the top-level name exists before the def is parsed
             self.pre += [f"def {h}({x}: int):", f"    return {x} + 1"]
             lines += [f"mon.write({h}({self.val('int')}))"]
+        elif kind == "local_nested":
+            # the helper binds the name only inside nested blocks: still a local of the helper
+            h, a = self.name("h"), self.name("a")
+            if self.draw(st.booleans()):
+                self.pre.append(lines.pop())
+            body = self.draw(st.sampled_from([
+                [f"    if {a} > 1:", f"        {x} = {a} * 2", "    else:", f"        {x} = 1", f"    return {x} + 1"],
+                [f"    for q in range(2):", f"        {x} = {a} + q", f"    return {x} + 1"],
+                [f"    if {a} > 1:", f"        {x} = {a} * 2", f"        mon.write({x})", f"    return {a}"],
+            ]))
+            self.pre += [f"def {h}({a}: int):"] + body
+            lines += [f"mon.write({h}({self.draw(st.sampled_from(['3', '5', '0']))}))"]
         else:
             h, a = self.name("h"), self.name("a")
             if self.draw(st.booleans()):
